@@ -177,6 +177,7 @@ func (l *Layout) Files() map[string]string {
 		m[k("bad.arrai")] = fmt.Sprintf("(at: %q).nope", ident(k("bad")))
 		m[k("d.json")] = fmt.Sprintf("{\"at\": %q}", ident(k("d.json")))
 		m[k("d.yaml")] = fmt.Sprintf("at: %q\n", ident(k("d.yaml")))
+		m[k("e.txt")] = "" // a zero-length data file: imports as empty bytes, i.e. the empty set
 	}
 	m[l.MainFile()] = nodeBody(l.MainKey(), l.Bodies[l.MainKey()])
 	for _, s := range l.Sent {
@@ -316,6 +317,8 @@ func (l *Layout) value(key, dir string) (*model.V, string) {
 			v = model.Arr(0, model.Str(ident(k), 0), model.Num(7))
 		case "bad":
 			return nil, "eval:missing-attr"
+		case "e.txt":
+			v = model.Set()
 		default: // d.json, d.yaml: a one-entry dictionary; imported data decodes strictly, strings are (s: …)
 			v = model.Set(model.DictEntry(model.Str("at", 0), model.Tup("s", model.Str(ident(rel), 0))))
 		}
@@ -442,8 +445,8 @@ func SpaceOf(thorough bool) Space {
 		Dirs:     []string{"", "a", "a b", "a/b"},
 		SentDirs: []string{"", "a", "a/b"},
 		F1: []Imp{{Name: "x"}, {Name: "x", Ext: true}, {Name: "x", Detour: true}, {Name: "y"}, {Name: "f"}, {Name: "bad"},
-			{Name: "d.json"}, {Name: "d.json", Dec: true}, {Name: "d.yaml"}, {Name: "nope"}},
-		F2Leaf:  []Imp{{Name: "y"}, {Name: "d.json"}, {Name: "f"}, {Name: "nope"}},
+			{Name: "d.json"}, {Name: "d.json", Dec: true}, {Name: "d.yaml"}, {Name: "e.txt"}, {Name: "nope"}},
+		F2Leaf:  []Imp{{Name: "y"}, {Name: "d.json"}, {Name: "f"}, {Name: "e.txt"}, {Name: "nope"}},
 		F2First: []Imp{{Name: "x"}},
 		F4Leaf:  []Imp{{Name: "y"}},
 		Exotic:  Exotics,
